@@ -5,6 +5,7 @@ import (
 	"encoding/json"
 	"flag"
 	"fmt"
+	"go/types"
 	"os"
 	"os/exec"
 	"path/filepath"
@@ -15,7 +16,13 @@ import (
 	"time"
 )
 
-const verifDir = "/verif"
+// verifDir: where lock, findings, harnesses, cache and evidence live (VF_VERIF_DIR points experiments at a snapshot)
+var verifDir = func() string {
+	if d := os.Getenv("VF_VERIF_DIR"); d != "" {
+		return d
+	}
+	return "/verif"
+}()
 
 // decoders: functions that parse bytes found on disk (C19 owns their safety obligations).
 var decoderFuncs = map[string]bool{
@@ -64,6 +71,11 @@ func propsOf(fi *FuncInfo, o *Obligation) []string {
 	set := map[string]bool{}
 	for t := range funcTags(fi) {
 		set[t] = true
+	}
+	if o.Kind == "lemma" {
+		for _, t := range o.Tags {
+			set[t] = true
+		}
 	}
 	if isSafety(o) {
 		set["C18"] = true
@@ -196,7 +208,57 @@ func generate(p *Prog, want func(*FuncInfo) bool) []*FuncGen {
 			gens = append(gens, p.genFunc(fi))
 		}
 	}
+	// lemmas of the contract files: one pseudo-function per package
+	var pks []string
+	for short := range p.Specs {
+		pks = append(pks, short)
+	}
+	sort.Strings(pks)
+	for _, short := range pks {
+		has := false
+		for _, ax := range p.Specs[short].Axioms {
+			has = has || ax.Lemma
+		}
+		if !has {
+			continue
+		}
+		fi := &FuncInfo{Key: short + ".lemmas", Short: "lemmas", Pkg: p.Pkgs[short]}
+		if want(fi) {
+			gens = append(gens, p.genLemmas(fi))
+		}
+	}
 	return gens
+}
+
+// genLemmas: each lemma is an obligation proved from the background theory and the axioms and lemmas stated before it.
+func (p *Prog) genLemmas(fi *FuncInfo) (g *FuncGen) {
+	g = &FuncGen{P: p, F: fi, occ: map[string]int{}, factSeen: map[string]bool{}, lits: map[string]string{},
+		heapKeys: map[string]string{}, declSeen: map[string]bool{}, info: fi.Pkg.TypesInfo}
+	short := pkgShort(fi.Pkg.Types)
+	g.lemmaPkg = short
+	defer func() {
+		if r := recover(); r != nil {
+			if ue, ok := r.(unboundErr); ok {
+				g.unbound = ue.msg
+				return
+			}
+			panic(r)
+		}
+	}()
+	g.emit("(declare-const alloc_0 (Array Int Bool))")
+	g.emit("(assert (not (select alloc_0 0)))")
+	g.entry = &State{vars: map[types.Object]Val{}, heap: map[string]string{"$alloc": "alloc_0"}, pc: "true"}
+	for i, ax := range p.Specs[short].Axioms {
+		if !ax.Lemma {
+			continue
+		}
+		g.lemmaIdx = i
+		// axioms emitted for an earlier lemma stay in the trace: they precede this one too
+		f := g.axiomFormula(fi.Pkg, ax)
+		g.obls = append(g.obls, &Obligation{Name: fi.Key + "#lemma[" + ax.Label + "]", Func: fi.Key, Kind: "lemma", Tags: ax.Tags,
+			traceLen: len(g.trace), pc: "true", goal: f, Src: ax.Src, Pos: short + "/contracts_verif.go"})
+	}
+	return g
 }
 
 func oblOK(o *Obligation) bool {
@@ -224,11 +286,36 @@ func cmdLock(args []string) {
 			sel[fi.Key] = true
 		}
 	}
-	gens := generate(p, func(fi *FuncInfo) bool { return *only == "" || sel[fi.Key] })
+	gens := generate(p, func(fi *FuncInfo) bool { return *only == "" || sel[fi.Key] || matchKey(*only, fi.Key) })
 	s, _ := newSolver(*timeout, false)
 	defer s.close()
 	s.prelude, s.lean = fullPrelude(p), leanPrelude(p)
+	// strategies of the previous lock are tried first; what it held and now times out under the load of a full run
+	// gets a second attempt with twice the limit
+	prev := map[string]string{}
+	for _, l := range readLines(filepath.Join(verifDir, "obligations.lock")) {
+		f := strings.Split(l, "\t")
+		if len(f) >= 3 {
+			prev[f[0]] = f[2]
+		}
+	}
+	for _, g := range gens {
+		for _, o := range g.obls {
+			o.Hint = prev[o.Name]
+		}
+	}
 	s.solveAll(gens, nil)
+	{
+		var jobs []retryJob
+		for _, g := range gens {
+			for _, o := range g.obls {
+				if _, was := prev[o.Name]; was && !oblOK(o) && (o.Status == "timeout" || o.Status == "unknown") {
+					jobs = append(jobs, retryJob{g, o})
+				}
+			}
+		}
+		retryAlone(jobs, *timeout*2, s)
+	}
 	findings := map[string]bool{}
 	for _, f := range loadFindings() {
 		if !f.Fixed {
@@ -266,7 +353,7 @@ func cmdLock(args []string) {
 			if i := strings.Index(name, "#"); i >= 0 {
 				fn = name[:i]
 			}
-			return !sel[fn]
+			return !sel[fn] && !matchKey(*only, fn)
 		}
 		for _, l := range readLines(filepath.Join(verifDir, "obligations.lock")) {
 			if keep(l) {
@@ -329,6 +416,16 @@ func cmdCheck(args []string) {
 	undecided := loadUndecided()
 	// which functions can carry obligations of this property
 	want := func(fi *FuncInfo) bool {
+		if fi.Short == "lemmas" && fi.Body == nil {
+			if ps := p.Specs[pkgShort(fi.Pkg.Types)]; ps != nil {
+				for _, ax := range ps.Axioms {
+					if ax.Lemma && hasProp(ax.Tags, id) {
+						return true
+					}
+				}
+			}
+			return false
+		}
 		if id == "C18" {
 			return true
 		}
@@ -388,6 +485,75 @@ func cmdCheck(args []string) {
 		refCount[baseName(name)]++
 		undCount[baseName(name)]++
 	}
+	// functions that have any obligation on the reference tree
+	refFuncs := map[string]bool{}
+	for name := range lock {
+		refFuncs[name[:strings.Index(name, "#")]] = true
+	}
+	for name := range undecided {
+		if i := strings.Index(name, "#"); i > 0 {
+			refFuncs[name[:i]] = true
+		}
+	}
+	// undecided sites of the reference tree that are no longer generated: renaming a variable or moving a statement
+	// changes the text a site is named by, so a new failing site of the same kind in the same function takes the place
+	// of a vanished undecided one (fkBudget), and a failing site whose text was undecided in another function on the
+	// reference tree is code that moved (undLabels). Neither was claimed before; neither is a violation now.
+	fkBudget := map[string]int{}
+	undLabels := map[string]string{}
+	kindOfName := func(name string) (string, string) {
+		i := strings.Index(name, "#")
+		if i < 0 {
+			return name, ""
+		}
+		rest := name[i+1:]
+		k := rest
+		if j := strings.IndexAny(rest, "[#"); j >= 0 {
+			k = rest[:j]
+		}
+		return name[:i], k
+	}
+	for name := range undecided {
+		fn, k := kindOfName(name)
+		if genCount[baseName(name)] == 0 {
+			fkBudget[fn+"#"+k]++
+		}
+		if i := strings.Index(name, "#"); i >= 0 {
+			undLabels[baseName(name)[i:]] = name
+		}
+	}
+	// new obligations (no site of that base name on the reference tree) that fail without being violations:
+	exempt := func(o *Obligation) string {
+		if refCount[baseName(o.Name)] != 0 {
+			return ""
+		}
+		if isSafety(o) || o.Kind == "ovf" || o.Kind == "conv" || o.Kind == "regexp" {
+			fn, k := kindOfName(o.Name)
+			if fkBudget[fn+"#"+k] > 0 {
+				fkBudget[fn+"#"+k]--
+				return fmt.Sprintf("%s takes the place of an undecided %s site of %s that is no longer generated (renamed or rewritten expression; not claimed)", o.Name, k, fn)
+			}
+			if i := strings.Index(o.Name, "#"); i >= 0 {
+				if was, ok := undLabels[baseName(o.Name)[i:]]; ok {
+					return fmt.Sprintf("%s: the same expression was undecided on the reference tree as %s (moved code; not claimed)", o.Name, was)
+				}
+			}
+		}
+		// a helper that did not exist on the reference tree, has no contract and is executed in place at every one of
+		// its call sites: its statements are checked there, in the callers' context; checked on its own, with
+		// arbitrary arguments, they say nothing about the program
+		if isSafety(o) || o.Kind == "ovf" || o.Kind == "conv" {
+			if fi := p.Funcs[o.Func]; fi != nil && fi.Spec == nil && !refFuncs[o.Func] && fi.Obj != nil && !fi.Obj.Exported() && p.InlinedAt[o.Func] > 0 && p.HavocAt[o.Func] == 0 {
+				return fmt.Sprintf("%s is a new helper without contract; %s is checked at its %d inlined call site(s), not on its own", o.Func, o.Name, p.InlinedAt[o.Func])
+			}
+		}
+		// a new arithmetic side condition (a counter that could only wrap after 2^63 steps) is undecided, not a
+		// violation: machine arithmetic treated as mathematical is a listed assumption
+		if o.Kind == "ovf" || o.Kind == "conv" {
+			return fmt.Sprintf("new arithmetic side condition %s is not discharged (undecided, not claimed)", o.Name)
+		}
+		return ""
+	}
 	sameSites := func(name string) bool { b := baseName(name); return genCount[b] == refCount[b] }
 	s.solveAll(gens, func(o *Obligation) bool {
 		// undecided obligations are not run in the quick tier (they are not claimed), unless the sites changed
@@ -397,45 +563,24 @@ func cmdCheck(args []string) {
 		return true
 	})
 	// a locked obligation that fails under parallel load is retried alone with a longer limit before it counts
-	// (at most four at a time: each retry races three solver processes)
 	{
-		type job struct {
-			g *FuncGen
-			o *Obligation
-		}
-		var jobs []job
+		var jobs []retryJob
 		for _, g := range gens {
 			for _, o := range g.obls {
-				if _, locked := lock[o.Name]; locked && o.Status != "" && !oblOK(o) && hasProp(propsOf(g.F, o), id) {
-					jobs = append(jobs, job{g, o})
+				if o.Status == "" || oblOK(o) || !hasProp(propsOf(g.F, o), id) {
+					continue
 				}
+				// everything that would be reported gets the second attempt: locked obligations and new ones alike
+				if (undecided[o.Name] || anyFinding[o.Name]) && sameSites(o.Name) {
+					continue
+				}
+				if _, isF := findingSet[o.Name]; isF {
+					continue
+				}
+				jobs = append(jobs, retryJob{g, o})
 			}
 		}
-		var wg sync.WaitGroup
-		var mu sync.Mutex
-		sem := make(chan struct{}, 4)
-		for _, j := range jobs {
-			wg.Add(1)
-			sem <- struct{}{}
-			go func(j job) {
-				defer wg.Done()
-				defer func() { <-sem }()
-				rs, _ := newSolver(timeout*2, false)
-				rs.noSplit = j.o.Hint != "case-split"
-				rs.prelude, rs.lean = s.prelude, s.lean
-				rs.cacheDir = ""
-				first := j.o.Status
-				rs.solve(j.o, j.g)
-				rs.close()
-				mu.Lock()
-				s.timeS += rs.timeS
-				if oblOK(j.o) {
-					fmt.Printf("note: %s needed a retry with twice the limit (first attempt: %s)\n", j.o.Name, first)
-				}
-				mu.Unlock()
-			}(j)
-		}
-		wg.Wait()
+		retryAlone(jobs, timeout*2, s)
 	}
 	var violations []map[string]interface{}
 	shifted := map[string][]*Obligation{}
@@ -504,10 +649,10 @@ func cmdCheck(args []string) {
 				reason = "new obligation (not in obligations.lock) does not discharge"
 				// a new arithmetic side condition (a counter that could only wrap after 2^63 steps) is undecided, not a
 				// violation: machine arithmetic treated as mathematical is a listed assumption
-				if (o.Kind == "ovf" || o.Kind == "conv") && refCount[baseName(o.Name)] == 0 {
+				if why := exempt(o); why != "" {
 					nObl--
 					notProved = append(notProved, o.Name)
-					fmt.Printf("note: new arithmetic side condition %s is not discharged (undecided, not claimed)\n", o.Name)
+					fmt.Println("note: " + why)
 					continue
 				}
 			}
@@ -535,6 +680,11 @@ func cmdCheck(args []string) {
 		for i, o := range failing {
 			if i < budget {
 				notProved = append(notProved, o.Name)
+				continue
+			}
+			if why := exempt(o); why != "" {
+				notProved = append(notProved, o.Name)
+				fmt.Println("note: " + why)
 				continue
 			}
 			nObl++
@@ -711,9 +861,13 @@ func cmdCheck(args []string) {
 		}
 	}
 	ev := evidence{PropertyID: id, Tier: *tier, Seed: seed, Level: level, Coverage: cov, Assumptions: append(trustedBase(), ns...), WallS: wall, Violations: len(violations)}
-	os.MkdirAll(filepath.Join(verifDir, "evidence"), 0o755)
+	evDir := filepath.Join(verifDir, "evidence")
+	if d := os.Getenv("VF_EVIDENCE_DIR"); d != "" {
+		evDir = d // experiments on scratch trees must not overwrite the evidence of the real tree
+	}
+	os.MkdirAll(evDir, 0o755)
 	b, _ := json.MarshalIndent(ev, "", " ")
-	os.WriteFile(filepath.Join(verifDir, "evidence", id+".json"), b, 0o644)
+	os.WriteFile(filepath.Join(evDir, id+".json"), b, 0o644)
 	fmt.Printf("property=%s tier=%s obligations=%d discharged=%d known_findings=%d not_proved=%d violations=%d wall=%.1fs\n", id, *tier, nObl, nDis, len(known), len(notProved), len(violations), wall)
 	if len(violations) > 0 {
 		os.Exit(1)
@@ -737,6 +891,9 @@ func trustedBase() []string {
 
 func writeReplay(id, name string, rec map[string]interface{}) string {
 	dir := filepath.Join(verifDir, "replays", id)
+	if d := os.Getenv("VF_EVIDENCE_DIR"); d != "" {
+		dir = filepath.Join(d, "replays", id)
+	}
 	os.MkdirAll(dir, 0o755)
 	path := filepath.Join(dir, sanitize(name)+".json")
 	b, _ := json.MarshalIndent(rec, "", " ")
@@ -796,4 +953,39 @@ func manifestCategory(id string) string {
 		}
 	}
 	return ""
+}
+
+type retryJob struct {
+	g *FuncGen
+	o *Obligation
+}
+
+// retryAlone: obligations that failed under the load of the parallel run get one more attempt with a longer limit,
+// at most four at a time (each attempt races three solver processes).
+func retryAlone(jobs []retryJob, timeoutS int, s *Solver) {
+	var wg sync.WaitGroup
+	var mu sync.Mutex
+	sem := make(chan struct{}, 4)
+	for _, j := range jobs {
+		wg.Add(1)
+		sem <- struct{}{}
+		go func(j retryJob) {
+			defer wg.Done()
+			defer func() { <-sem }()
+			rs, _ := newSolver(timeoutS, false)
+			rs.noSplit = j.o.Hint != "case-split"
+			rs.prelude, rs.lean = s.prelude, s.lean
+			rs.cacheDir = ""
+			first := j.o.Status
+			rs.solve(j.o, j.g)
+			rs.close()
+			mu.Lock()
+			s.timeS += rs.timeS
+			if oblOK(j.o) {
+				fmt.Printf("note: %s needed a retry with twice the limit (first attempt: %s)\n", j.o.Name, first)
+			}
+			mu.Unlock()
+		}(j)
+	}
+	wg.Wait()
 }
